@@ -368,8 +368,9 @@ func Check(reg *Registry, property, tier, verifDir string) int {
 					continue
 				}
 				if hashes[0] != hashes[1] && reg.UnstableSUT[property] == 0 {
-					fmt.Fprintf(os.Stderr, "HARNESS: replay fingerprints differ (%s vs %s): harness nondeterminism\n", hashes[0], hashes[1])
-					exit = 2
+					// the violation itself reproduced twice in fresh processes: it is reported; the differing
+					// event logs are noted (an unordered walk in an oracle or nondeterminism of the code under test)
+					fmt.Fprintf(os.Stderr, "note: the two replays reproduce the violation with different event-log fingerprints (%s vs %s)\n", hashes[0], hashes[1])
 				}
 				reported = true
 				break
